@@ -9,6 +9,34 @@ fn comp(name: &str, k: usize) -> Comp {
     Comp { name: name.to_string(), tag: None, ty: tys[k % tys.len()].clone(), opt: if k % 3 == 1 { Opt::Optional } else { Opt::Req } }
 }
 
+/// the same type with context tags 30, 29, .. on its components in textual order
+fn retag_descending(t: &Ty) -> Ty {
+    let mut n = 31u64;
+    let mut re = |c: &Comp| {
+        n -= 1;
+        Comp { tag: Some(Tag { class: "context", num: n, kw: "none" }), ..c.clone() }
+    };
+    match t {
+        Ty::Seq { set, root, marker, adds } => {
+            let root = root.iter().map(&mut re).collect();
+            let adds = adds.iter().map(|a| match a {
+                Add::Comp(c) => Add::Comp(re(c)),
+                Add::Group(v, cs) => Add::Group(*v, cs.iter().map(&mut re).collect()),
+            }).collect();
+            Ty::Seq { set: *set, root, marker: *marker, adds }
+        }
+        Ty::Choice { root, marker, adds } => {
+            let root = root.iter().map(&mut re).collect();
+            let adds = adds.iter().map(|a| match a {
+                Add::Comp(c) => Add::Comp(re(c)),
+                Add::Group(v, cs) => Add::Group(*v, cs.iter().map(&mut re).collect()),
+            }).collect();
+            Ty::Choice { root, marker: *marker, adds }
+        }
+        other => other.clone(),
+    }
+}
+
 /// all addition layouts of length ≤ 3 over {component, group of 1, group of 2}
 fn layouts(groups: bool) -> Vec<Vec<u8>> {
     let alpha: Vec<u8> = if groups { vec![0, 1, 2] } else { vec![0] };
@@ -83,6 +111,11 @@ pub fn exhaustive() -> Vec<Case> {
                     });
                 }
                 cases.push(Case { env: "implicit", implied: false, tag: None, ty: Ty::SeqOf { set: false, elem: Box::new(ty.clone()), elem_tag: None } });
+                // explicit context tags written in descending order: the order of the notation, not of the tags, decides what is an addition
+                if kind != "enum" && marker {
+                    cases.push(Case { env: "explicit", implied: false, tag: None, ty: retag_descending(&ty) });
+                    cases.push(Case { env: "implicit", implied: false, tag: None, ty: retag_descending(&ty) });
+                }
             }
         }
     }
@@ -128,13 +161,13 @@ fn describe(c: &Case) -> Vec<String> {
 pub fn run(cfg: &RunCfg) -> Report {
     let mut rep = Report::new(
         "C05",
-        "exhaustive: {SEQUENCE, SET, CHOICE, ENUMERATED} × 0..4 root components × (no marker | marker followed by every layout of ≤3 additions over {component, [[group of 1]], [[group of 2]]} with/without version numbers) × {top-level, nested component, SEQUENCE OF element} × EXTENSIBILITY IMPLIED on/off; plus seeded random constructed types (depth ≤3, ≤6 components, groups). Non-trivial = compiled and all items read back; distinct = distinct (module defaults, notation)",
+        "exhaustive: {SEQUENCE, SET, CHOICE, ENUMERATED} × 0..4 root components × (no marker | marker followed by every layout of ≤3 additions over {component, [[group of 1]], [[group of 2]]} with/without version numbers) × {top-level, nested component, SEQUENCE OF element} × EXTENSIBILITY IMPLIED on/off; marked types again with explicit context tags in descending textual order; plus seeded random constructed types (depth ≤3, ≤6 components, groups, random tags). Non-trivial = compiled and all items read back; distinct = distinct (module defaults, notation)",
     );
     let mut cases: Vec<Case> = if let Some(r) = &cfg.replay { vec![case_from_replay(r).expect("bad replay")] } else { Vec::new() };
     if cfg.replay.is_none() {
         cases.extend(load_corpus("C05").iter().filter_map(case_from_replay));
         cases.extend(exhaustive());
-        cases.extend(random_cases(cfg, 0xC05, cfg.budget(800, 20000), || GenCfg { max_depth: 3, max_comps: 6, tags: false, groups: true, defaults: false }));
+        cases.extend(random_cases(cfg, 0xC05, cfg.budget(800, 20000), || GenCfg { max_depth: 3, max_comps: 6, tags: true, groups: true, defaults: false }));
         rep.exhaustive = true;
     }
     judge("c05", &cases, &mut rep, &describe);
